@@ -8,6 +8,29 @@ from . import exceptions
 from . import check_sequence_type
 
 
+class _FillSeq(FillSeq):
+    """Elements of a sequence up to its *FillCompute*
+    (*FillRequest*) element, used only to fill them.
+
+    Static context is set by the containing sequence,
+    which also has elements with no data (like *SetContext*):
+    a context set from here would be computed without them.
+    """
+
+    def _set_context(self, context):
+        pass
+
+
+class _Sequence(sequence.Sequence):
+    """Elements of a sequence after its *FillCompute*
+    (*FillRequest*) element, used only to run the flow.
+    Static context is set by the containing sequence.
+    """
+
+    def _set_context(self, context):
+        pass
+
+
 def _init_sequence_with_el(self, args, el_attr, check_el_type,
                            el_name, seq_name):
     # todo: remove after we remove FillRequestSeq
@@ -38,13 +61,13 @@ def _init_sequence_with_el(self, args, el_attr, check_el_type,
     # for syntactical reasons; otherwise (*before, el) is impossible
     before.append(el)
     try:
-        before_seq = FillSeq(*before)
+        before_seq = _FillSeq(*before)
     except exceptions.LenaTypeError as err:
         raise err
     self._fill_seq = before_seq
     self.fill = self._fill_seq.fill
     # to do: add exception handling here.
-    self._after = sequence.Sequence(*after)
+    self._after = _Sequence(*after)
 
     # data_seq is an attribute of LenaSequence
     self._data_seq = []
@@ -106,14 +129,14 @@ class FillComputeSeq(lena_sequence.LenaSequence):
 
         before.append(fc_el)
         try:
-            before_seq = FillSeq(*before)
+            before_seq = _FillSeq(*before)
         except exceptions.LenaTypeError as err:
             raise err
         self._fill_seq = before_seq
         self.fill = self._fill_seq.fill
         # to do: do we check for exceptions like above
         # or skip like here?
-        self._after = sequence.Sequence(*after)
+        self._after = _Sequence(*after)
 
     def fill(self, value):
         """Fill *self* with *value*.
